@@ -7,7 +7,7 @@ from ..drive import projection
 
 ID = "C04"
 LEVEL = "exploration"
-PROFILE = {"garbage": 0.15, "ctl": 0.1, "semicolon": False, "sleep": True, "ota": True, "unicode": 0.25}
+PROFILE = {"cbset": True, "garbage": 0.15, "ctl": 0.1, "semicolon": False, "sleep": True, "ota": True, "unicode": 0.25}
 
 
 def jobs(tier, seed):
